@@ -75,6 +75,13 @@ class Chain:
             sh("ip netns exec %s nft 'add chain ip6 vt out { type filter hook output priority 0 ; }'" % ns)
             sh("ip netns exec %s nft add rule ip6 vt out icmpv6 type time-exceeded drop" % ns)
 
+    def filter_port(self, port):
+        """the destination silently drops TCP segments to this port (a firewalled port: connect() times out)"""
+        ns = self.ns[-1]
+        sh("ip netns exec %s nft add table ip vf" % ns)
+        sh("ip netns exec %s nft 'add chain ip vf inp { type filter hook input priority 0 ; }'" % ns)
+        sh("ip netns exec %s nft add rule ip vf inp tcp dport %d drop" % (ns, port))
+
     def no_sack(self):
         sh("ip netns exec %s sysctl -qw net.ipv4.tcp_sack=0" % self.ns[-1])
 
